@@ -510,7 +510,8 @@ def _stg_conformance(sc, v, runs):
     import online
     # (runs in which the AMF sends a message of its own accord in front of the fault are outside the AMF family of Stg.tla, whose AMF only
     # answers: they are judged by StgOnline's final verdict alone)
-    clean = [r for r in runs if r["verdict"] is not None and r["tlc"].ok and not r["tlc"].rejects and not r["scn"]["fault"].get("ins")]
+    clean = [r for r in runs if r["verdict"] is not None and r["tlc"].ok and not r["tlc"].rejects and not r["scn"]["fault"].get("ins")
+             and r["scn"]["fault"]["kind"] != "closeafter"]
     n = 0
     for r, t in online.validate_stg(sc, clean):
         if not t.ok:
@@ -665,6 +666,14 @@ def check_C19(sc, v, tier, seed, replay):
                                                  opts={"det": si + seed % 3, "gnb_bits": 22 + (seed + 4 * 9) % 11, "free_msin": s[1] == 0, "imsi_len": 15, "low": 9999},
                                                  fault=fl)
                 jobs.append(("f%d-%s%02d%s" % (si, kind, at, "abcdefgh"[gi] if kind == "garbage" else ""), scn, text))
+        # the peer answers and is gone at once: the answer is read, the emulator's next write fails (every read of the conversation is followed
+        # by a write, the last one by the UE CONTEXT RELEASE COMPLETE / the response that ends the last procedure)
+        if si == 0 or tier != "quick":
+            for a in list(range(reads))[(0 if si == 0 else si % 3)::(1 if si == 0 else 3)]:
+                scn, text = online.make_scenario(random.Random(seed * 7 + si), counts,
+                                                 opts={"det": si + seed % 3, "gnb_bits": 22 + (seed + 4 * 9) % 11, "free_msin": s[1] == 0, "imsi_len": 15, "low": 9999},
+                                                 fault={"kind": "closeafter", "at": a, "bytes": []})
+                jobs.append(("f%d-closeafter%02d" % (si, a), scn, text))
         # a well-formed interface management message of the AMF's own accord (OVERLOAD STOP, AMF STATUS INDICATION) in front of the fault:
         # the emulator takes it for the answer it waits for and meets the fault one read later (not where that read is the ignored one)
         mgmt = [[0, 23, 0, 3, 0, 0, 0], [0, 1, 64, 15, 0, 0, 1, 0, 120, 0, 8, 0, 0, 2, 248, 57, 1, 0, 65]]
@@ -688,6 +697,21 @@ def check_C19(sc, v, tier, seed, replay):
                                              opts={"det": si + seed % 3, "gnb_bits": 22 + (seed + 4 * 9) % 11, "free_msin": s[1] == 0, "imsi_len": 15, "low": 9999},
                                              fault=fl)
             jobs.append(("f%d-pre%02d-garbage%02d" % (si, pre, a), scn, text))
+    # conversations that end with each of the procedures (registration, session establishment, service request, session release,
+    # deregistration as the last phase): the peer answers the last request of the run and is gone before the emulator writes the message
+    # that completes it - the last write of a run is a write like any other
+    for ei, s in enumerate([(1, 0, 0, 0, 0), (1, 1, 0, 0, 0), (1, 1, 1, 0, 0), (1, 1, 0, 1, 0), (2, 1, 1, 0, 0)]):
+        if tier == "quick" and ei == 4:
+            continue
+        counts = dict(zip(("reg", "pdu", "svc", "rel", "dereg"), s))
+        reads, ignored, ndl = _fault_points(counts)
+        last = reads - 1
+        if last in ignored:
+            continue          # (registration only: the last read is the ignored one and no write follows it)
+        scn, text = online.make_scenario(random.Random(seed * 7 + 40 + ei), counts,
+                                         opts={"det": ei + seed % 3, "gnb_bits": 22 + (seed + ei) % 11, "imsi_len": 15},
+                                         fault={"kind": "closeafter", "at": last, "bytes": []})
+        jobs.append(("end%d-closeafter%02d" % (ei, last), scn, text))
     runs = online.run_many(sc, emu, jobs, parallel=16, timeout=900)
     for r in runs:
         for rj in r["tlc"].rejects:
